@@ -37,6 +37,12 @@ def main(argv=None) -> int:
     db = DB(args.repo)
     res = Result(prop, args.tier)
     mod.run(db, res, args.tier)
+    if args.tier == "thorough" and not os.environ.get("VERIF_NO_SELFTEST"):
+      from .report import classify
+      from .selftest import run_selftest
+
+      base_new, _ = classify(res)
+      run_selftest(res, prop, args.repo, [f.key() for f in base_new], jobs=int(os.environ.get("VERIF_JOBS", "16")))
     return finish(res, seed)
   except AnalysisError as e:
     print(f"ANALYSIS-ERROR property={prop} {e}")
